@@ -89,8 +89,12 @@ impl<'l, F: AsFd> Async<'l, F> {
         }
 
         // SAFETY: We are sure to deregister on drop.
-        unsafe {
-            inner.register(&dispatcher)?;
+        if let Err(err) = unsafe { inner.register(&dispatcher) } {
+            // Registration failed: hand the slot back and restore the blocking mode, as if the
+            // call had not been made.
+            inner.kill(&dispatcher);
+            let _ = set_nonblocking(fd.as_fd(), was_nonblocking);
+            return Err(err);
         }
 
         // Straightforward casting would require us to add the bound `Data: 'l` but we don't actually need it
